@@ -154,6 +154,9 @@ pub enum Op {
     SweepRotation,
     /// move the clock to 1 ns before, onto and 1 ns after the deadline of the key, reading it with every variant each time
     DeadlineWalk { k: u8 },
+    /// consume a multi_get iterator step by step, executing one awaited write between consecutive next() calls:
+    /// each next() must reflect the state at the time it is called
+    IterSteps { map: bool, keys: Vec<u8>, between: Vec<Op> },
     /// inside a burst only: let the parked command worker execute exactly one queued command (the oldest)
     StepWorker,
     /// park the command worker, issue the burst without awaiting, release, await everything
@@ -335,6 +338,7 @@ pub fn op_strategy(params: &GenParams) -> BoxedStrategy<Op> {
         choices.push((rotation.max(1), Just(Op::SweepRotation).boxed()));
         choices.push((walk.max(1), key.clone().prop_map(|k| Op::DeadlineWalk { k }).boxed()));
     }
+    choices.push((read.max(3) / 3, (any::<bool>(), prop::collection::vec(key.clone(), 2..=4), prop::collection::vec(writes.clone(), 1..=3)).prop_map(|(map, keys, between)| Op::IterSteps { map, keys, between }).boxed()));
     if params.stall && stall > 0 {
         let burst_op = prop_oneof![10 => writes, 2 => reads, 2 => Just(Op::StepWorker)];
         choices.push((stall, prop::collection::vec(burst_op, 1..=6).prop_map(|burst| Op::Stall { burst }).boxed()));
